@@ -4,11 +4,12 @@ line, one canonical observation per output line.  Imports `Model/` and `Gen/`
 only, so it builds as a native executable.
 -/
 import QuantityModel.Model.Rounding
+import QuantityModel.Model.Term
 namespace QM.Driver
 open QM
 
 structure DState where
-  dummy : Unit := ()
+  env : Env := { atoms := [] }
 
 def DState.init : DState := {}
 
@@ -49,13 +50,97 @@ def stepRounding (args : List String) : Option String :=
     | _, _, _ => some bad
   | _ => none
 
+/-! ### terms -/
+
+def parseItem? (s : String) : Option Item :=
+  match s.splitOn "^" with
+  | [el, e] =>
+    match e.toInt? with
+    | none => none
+    | some e =>
+      if el.startsWith "n:" then (parseRat? (el.drop 2).toString).map fun q => (Elem.num q, e)
+      else if el.startsWith "a:" then ((el.drop 2).toString.toNat?).map fun a => (Elem.atom a, e)
+      else none
+  | _ => none
+
+def parseItems? (s : String) : Option Items :=
+  if s == "-" then some [] else (s.splitOn ";").mapM parseItem?
+
+def showItem (it : Item) : String :=
+  match it.1 with
+  | .num q => s!"n:{ratStr q}^{it.2}"
+  | .atom a => s!"a:{a}^{it.2}"
+
+def showItems (l : Items) : String :=
+  if l.isEmpty then "-" else ";".intercalate (l.map showItem)
+
+def parseScale? (s : String) : Option (Option Rat) :=
+  if s == "-" then some none else (parseRat? s).map some
+
+def stepTerm (st : DState) (args : List String) : Option (DState × String) :=
+  let env := st.env
+  match args with
+  | ["atom", id, key, group, scale, base, nd] =>
+    match id.toNat?, key.toInt?, group.toNat?, parseScale? scale, parseItems? nd with
+    | some id, some key, some group, some scale, some nd =>
+      if id != env.atoms.length then some (st, bad) else
+      let info : AtomInfo := { key, group, scale, isBase := base == "1", normDef := nd }
+      some ({ st with env := { atoms := env.atoms ++ [info] } }, "ok")
+    | _, _, _, _, _ => some (st, bad)
+  | ["t_mk", a] => (parseItems? a).map fun a => (st, "ok " ++ showItems (mkTerm env a))
+  | ["t_norm", a] => (parseItems? a).map fun a =>
+      (st, "ok " ++ showItems (termNormalized env (mkTerm env a)))
+  | ["t_mul", a, b] =>
+    match parseItems? a, parseItems? b with
+    | some a, some b => some (st, "ok " ++ showItems (mulTerm env (mkTerm env a) (mkTerm env b)))
+    | _, _ => some (st, bad)
+  | ["t_div", a, b] =>
+    match parseItems? a, parseItems? b with
+    | some a, some b => some (st, "ok " ++ showItems (divTerm env (mkTerm env a) (mkTerm env b)))
+    | _, _ => some (st, bad)
+  | ["t_scale", q, a] =>
+    match parseRat? q, parseItems? a with
+    | some q, some a => some (st, "ok " ++ showItems (scaleTerm env q (mkTerm env a)))
+    | _, _ => some (st, bad)
+  | ["t_divs", a, q] =>
+    match parseItems? a, parseRat? q with
+    | some a, some q => some (st, "ok " ++ showItems (divScalar env (mkTerm env a) q))
+    | _, _ => some (st, bad)
+  | ["t_rdivs", q, a] =>
+    match parseRat? q, parseItems? a with
+    | some q, some a => some (st, "ok " ++ showItems (rdivScalar env q (mkTerm env a)))
+    | _, _ => some (st, bad)
+  | ["t_pow", a, n] =>
+    match parseItems? a, n.toInt? with
+    | some a, some n => some (st, "ok " ++ showItems (powTerm env (mkTerm env a) n))
+    | _, _ => some (st, bad)
+  | ["t_recip", a] => (parseItems? a).map fun a =>
+      (st, "ok " ++ showItems (reciprocalItems (mkTerm env a)))
+  | ["t_eq", a, b] =>
+    match parseItems? a, parseItems? b with
+    | some a, some b =>
+      let ta := mkTerm env a
+      let tb := mkTerm env b
+      some (st, s!"ok eq={termEq env ta tb} hasheq={termHashKey env ta == termHashKey env tb}")
+    | _, _ => some (st, bad)
+  | ["t_numelem", a] => (parseItems? a).map fun a =>
+      (st, match numElem (mkTerm env a) with | some q => "ok " ++ ratStr q | none => "ok none")
+  | ["t_split", a] => (parseItems? a).map fun a =>
+      let (n, r) := splitTerm env (mkTerm env a)
+      (st, s!"ok {ratStr n} {showItems r}")
+  | _ => none
+
 def step (s : DState) (line : String) : DState × String :=
   let args := line.splitOn "\t"
   match args with
   | ["reset"] => (DState.init, "ok reset")
+  | ["numkind", _] => (s, "ok")   -- representation of numbers on the Python side only
   | _ =>
     match stepRounding args with
     | some out => (s, out)
+    | none =>
+    match stepTerm s args with
+    | some r => r
     | none => (s, bad)
 
 end QM.Driver
